@@ -1,2 +1,3 @@
 import Properties.C19
 import Properties.C13
+import Properties.C20
